@@ -426,12 +426,14 @@ static bool step()
 	else if(k == "ac") { int id = (int)H.size() + 1; H.push_back(eventpp::counterRemover(*q).appendListener(makeKey(o.a), Cb(id), o.b)); HE.push_back(o.a); evx("ac", o.a, o.b, 0, id, 0); }
 	else if(k == "ak") { int id = (int)H.size() + 1; H.push_back(eventpp::conditionalRemover(*q).appendListener(makeKey(o.a), Cb(id), Cond{id})); HE.push_back(o.a); evx("ak", o.a, 0, 0, id, 0); }
 #endif
+#if W_CALLBACK == 0
 	// conditionalFunctor (runs when the argument value is even) / argumentAdapter (converts the argument to the listener's own type)
 	else if(k == "aw") { int id = (int)H.size() + 1; H.push_back(q->appendListener(makeKey(o.a), eventpp::conditionalFunctor(Cb(id), EvenCond()))); HE.push_back(o.a); evx("aw", o.a, 0, 0, id, 0); }
 #if W_MODE == 1
 	else if(k == "aa") { int id = (int)H.size() + 1; H.push_back(q->appendListener(makeKey(o.a), eventpp::argumentAdapter<void (const Key &, PayloadView)>(AdaptedCb(id)))); HE.push_back(o.a); evx("al", o.a, 0, 0, id, 0); }
 #else
 	else if(k == "aa") { int id = (int)H.size() + 1; H.push_back(q->appendListener(makeKey(o.a), eventpp::argumentAdapter<void (PayloadView)>(AdaptedCb(id)))); HE.push_back(o.a); evx("al", o.a, 0, 0, id, 0); }
+#endif
 #endif
 	// ScopedRemover o.a
 	else if(k == "sa" || k == "sp") {
